@@ -18,7 +18,8 @@ CONSTANTS Timers,        \* set of timer ids (strings)
           Kinds,         \* [Timers -> {"after","interval","exit","kill"}]  (model checking only)
           Periods,       \* [Timers -> Nat]                                  (model checking only)
           MaxNow,        \* clock bound
-          EnvOps,        \* subset of {"stop","kill","drain","fail","busy","abort"}
+          EnvOps,        \* subset of {"stop","kill","drain","fail","busy","abort","stall"}
+          Stalls,        \* durations for which some task may stall the executor (model checking; {} = never)
           VirtualClock,  \* TRUE: time advances only when no timer task is runnable
           Instant,       \* TRUE: the target comes from spawn_instant and is still Unstarted at the beginning
           UnstartedKillsInterval  \* TRUE: the code as it is (ACTIVE_STATES lacks Unstarted: deviation IntervalDiesOnUnstarted)
@@ -39,11 +40,12 @@ InitTg == [st |-> "run",        \* unstarted | run (Starting, Running, Upgrading
            sig |-> "none",      \* none | sent | taken
            mq |-> <<>>, cur |-> NoMsg, busy |-> FALSE,
            exitR |-> "", left |-> FALSE, leftAt |-> 0,
-           nfail |-> 0, nbusy |-> 0]
+           nfail |-> 0, nbusy |-> 0,
+           freeAt |-> 0, nstall |-> 0]   \* end of the latest executor stall
 InitTm == [pc |-> "none",       \* none | new | sleep | done | aborted
-           kind |-> "after", p |-> 0, created |-> 0, due |-> 0, k |-> 0, res |-> "none", nenq |-> 0, nh |-> 0,
+           kind |-> "after", p |-> 0, created |-> 0, started |-> 0, due |-> 0, k |-> 0, res |-> "none", nenq |-> 0, nh |-> 0,
            \* monitors
-           early |-> FALSE, inexact |-> FALSE, deadDeliv |-> FALSE, badOrder |-> FALSE,
+           early |-> FALSE, inexact |-> FALSE, lateStart |-> FALSE, deadDeliv |-> FALSE, badOrder |-> FALSE,
            diedUnstarted |-> FALSE]   \* an interval task ended because its target had not started yet
 
 Init == now = 0 /\ tg = [InitTg EXCEPT !.st = IF Instant THEN "unstarted" ELSE "run"] /\ tm = [t \in Timers |-> InitTm]
@@ -101,6 +103,15 @@ TgHandle ==
      ELSE /\ tg' = [tg EXCEPT !.cur = NoMsg]
           /\ tm' = [tm EXCEPT ![h.x].nh = @ + 1, ![h.x].badOrder = @ \/ h.k # tm[h.x].nh + 1 \/ h.k > tm[h.x].nenq]
   /\ UNCHANGED now
+\* An executor stall: a task keeps the (single) executor thread for d ms without suspending - a CPU-bound handler, a blocking
+\* call. Nothing else is polled meanwhile, so this is the only way time passes over the deadline of a runnable timer task.
+Stalled(r, d) == [r EXCEPT !.freeAt = now + d, !.nstall = @ + 1]
+Stall(d) ==       \* some task other than the target's handler
+  /\ now' = now + d /\ tg' = Stalled(tg, d) /\ UNCHANGED tm
+TgHandleStall(d) ==   \* the handler of a "busy" message stalls instead of suspending
+  /\ tg.cur = BusyItem /\ tg.sig # "sent" /\ ~tg.busy
+  /\ now' = now + d /\ tg' = Stalled([tg EXCEPT !.busy = TRUE], d) /\ UNCHANGED tm
+EnvStall(d) == "stall" \in EnvOps /\ tg.nstall < 1 /\ now + d <= MaxNow /\ (Stall(d) \/ TgHandleStall(d))
 TgBusyEnd ==
   /\ tg.busy /\ tg.sig # "sent"
   /\ tg' = [tg EXCEPT !.busy = FALSE, !.cur = NoMsg]
@@ -123,12 +134,18 @@ Start(t) ==
   /\ tm[t].pc = "new"
   /\ IF tm[t].kind = "interval" /\ ~KeepTicking
        THEN tm' = [tm EXCEPT ![t].pc = "done", ![t].diedUnstarted = tg.st = "unstarted"]      \* the while condition fails at once
-       ELSE tm' = [tm EXCEPT ![t].pc = "sleep", ![t].due = now + tm[t].p]
+       ELSE tm' = [tm EXCEPT ![t].pc = "sleep", ![t].due = now + tm[t].p, ![t].started = now,
+                             \* the first poll happens at the instant of the call, or when a stall that began before it ends
+                             ![t].lateStart = now # tm[t].created /\ now # tg.freeAt]
   /\ UNCHANGED <<now, tg>>
 
 Ready(t) == tm[t].pc = "sleep" /\ tm[t].due <= now
+\* The k-th deadline is started + k*period whatever happened before (tokio's sleep; interval with the default Burst policy:
+\* next deadline = previous deadline + period). The operation happens at its deadline, or - when the executor was stalled
+\* over the deadline - at the end of that stall: ticks missed during a stall fire back to back, none is dropped or shifted.
+Nominal(r) == r.started + (r.k + 1) * r.p
 Mon(r) == [r EXCEPT !.early = @ \/ now < r.created + (r.k + 1) * r.p,
-                    !.inexact = @ \/ now # r.created + (r.k + 1) * r.p,
+                    !.inexact = @ \/ (now # Nominal(r) /\ ~(now = tg.freeAt /\ Nominal(r) < tg.freeAt)),
                     !.k = @ + 1]
 Fire(t) ==
   /\ Ready(t) /\ UNCHANGED now
@@ -165,7 +182,7 @@ Advance(t2) ==
   /\ now' = t2 /\ UNCHANGED <<tg, tm>>
 
 TgStep == TgStarting \/ TgSig \/ TgStop \/ TgTake \/ TgTakeDrain \/ TgHandle \/ TgBusyEnd \/ TgCleanup
-EnvStep == EnvStop \/ EnvKill \/ EnvDrain \/ EnvSendFail \/ EnvSendBusy \/ \E t \in Timers : EnvAbort(t)
+EnvStep == EnvStop \/ EnvKill \/ EnvDrain \/ EnvSendFail \/ EnvSendBusy \/ (\E t \in Timers : EnvAbort(t)) \/ (\E d \in Stalls : EnvStall(d))
 TimerStep(t) == Create(t, Kinds[t], Periods[t]) \/ Start(t) \/ Fire(t)
 Next == TgStep \/ EnvStep \/ (\E t \in Timers : TimerStep(t)) \/ (\E t2 \in (now + 1)..MaxNow : Advance(t2))
 Spec == Init /\ [][Next]_vars
@@ -179,8 +196,9 @@ AfterOnce == \A t \in Timers : IsAfter(t) => tm[t].k <= 1 /\ tm[t].nenq <= 1 /\ 
 AfterResult == \A t \in Timers : (IsAfter(t) /\ tm[t].pc = "done") => tm[t].res \in {"ok", "err"}
 \* nothing happens before k periods have elapsed since the call
 NeverEarly == \A t \in Timers : ~tm[t].early
-\* on the virtual clock the k-th operation happens exactly at created + k*period (no drift)
-Exact == VirtualClock => \A t \in Timers : ~tm[t].inexact
+\* on the virtual clock the k-th operation happens exactly at started + k*period, where started is the instant of the call
+\* (no drift); only an executor stall delays it, and then to the end of the stall and no further - also for every later tick
+Exact == VirtualClock => \A t \in Timers : ~tm[t].inexact /\ ~tm[t].lateStart
 \* nothing is delivered once abort() has returned / once the target has left the running states
 AbortStops == \A t \in Timers : tm[t].pc = "aborted" => ~ENABLED Fire(t) /\ ~ENABLED Start(t)
 NoDeliveryToDead == \A t \in Timers : ~tm[t].deadDeliv
@@ -188,7 +206,8 @@ NoDeliveryToDead == \A t \in Timers : ~tm[t].deadDeliv
 HandledInOrder == \A t \in Timers : ~tm[t].badOrder /\ tm[t].nh <= tm[t].nenq
 \* an interval task ends within one period of the target leaving the running states
 IntervalEnds == VirtualClock => \A t \in Timers :
-  (IsInterval(t) /\ tm[t].pc = "sleep" /\ tg.left) => (tm[t].due <= tg.leftAt + tm[t].p /\ now <= tg.leftAt + tm[t].p)
+  (IsInterval(t) /\ tm[t].pc = "sleep" /\ tg.left) =>
+    (tm[t].due <= tg.leftAt + tm[t].p /\ (now <= tg.leftAt + tm[t].p \/ now = tg.freeAt))
 \* exit_after / kill_after: documented reasons
 Reasons == /\ tg.sig = "taken" => tg.exitR = "killed"
            /\ \A t \in Timers : (tm[t].pc = "done" /\ tm[t].kind = "exit" /\ tg.exitR = ExitReason(tm[t].p)) => ~tm[t].early
